@@ -15,6 +15,14 @@
 (*   ActorTake/Add   the same in two steps when _get_component_category has   *)
 (*                   to ask the API (empty cache or unknown id): the actor    *)
 (*                   may be suspended between taking and handling the request *)
+(*   ApiListFails    EXTENSION (not in C20's stated quantifier): the API's    *)
+(*                   components() call will raise once                        *)
+(*   ActorCrash      the category lookup raises: add_metric raises, _run ends,*)
+(*                   the request in hand is dropped (never a subscription)    *)
+(*   ActorRestart    Actor._run_loop calls _run again after RESTART_DELAY;    *)
+(*                   subscriptions, handler tasks, API receivers and the      *)
+(*                   dedupe state survive (they live in the source object     *)
+(*                   created in __init__), queued requests are still queued   *)
 (*   HandlerStart(c) the created task starts _handle_data_stream: API receiver*)
 (*                   (created once), senders for the subscriptions of NOW     *)
 (*   HandlerRecv(c)  one turn of `async for data in api_data_receiver`: a     *)
@@ -37,6 +45,7 @@ CONSTANTS Comps,       \* set of component ids known to the API (1..NC)
           ReqSet,      \* requests clients may send: set of [c, ns, m, st]
           MaxMsg,      \* total number of API messages
           MaxReq,      \* total number of requests
+          MaxFail,     \* total number of transient components() failures (extension; 0 = none)
           MaxDepth,    \* history bound (generation only)
           Mode         \* "mc" | "gen" | "env" | "sim" | "trace"
 
@@ -47,6 +56,9 @@ VARIABLES nmsg,       \* c -> number of messages the API stream of c has produce
           reqq,       \* requests channel
           cur,        \* request the actor has taken and is looking up in the API (NoReq: none)
           cached,     \* _comp_categories_cache is filled
+          fail,       \* the next components() call raises
+          astate,     \* "run" | "crashed" (the actor waits for its restart delay)
+          nfail,
           subs,       \* installed subscriptions (_req_streaming_metrics), set of keys
           hst,        \* c -> "none" | "created" | "running"   (comp_data_tasks[c])
           epoch,      \* c -> number of handler tasks created so far
@@ -58,8 +70,8 @@ VARIABLES nmsg,       \* c -> number of messages the API stream of c has produce
           nreq,
           h           \* history of actions (hidden by VIEW)
 
-vars == <<nmsg, hasrecv, recvFrom, apiq, reqq, cur, cached, subs, hst, epoch, snap, fan, consumed, delivered, inst, nreq, h>>
-View == <<nmsg, hasrecv, recvFrom, apiq, reqq, cur, cached, subs, hst, epoch, snap, fan, consumed, delivered, inst, nreq>>
+vars == <<nmsg, hasrecv, recvFrom, apiq, reqq, cur, cached, fail, astate, nfail, subs, hst, epoch, snap, fan, consumed, delivered, inst, nreq, h>>
+View == <<nmsg, hasrecv, recvFrom, apiq, reqq, cur, cached, fail, astate, nfail, subs, hst, epoch, snap, fan, consumed, delivered, inst, nreq>>
 
 \* a subscription is identified by exactly what determines the channel name
 \* (ComponentMetricRequest.get_channel_name: namespace, component, metric, start_time)
@@ -82,6 +94,7 @@ Init ==
     /\ reqq = <<>>
     /\ cur = NoReq
     /\ cached = FALSE
+    /\ fail = FALSE /\ astate = "run" /\ nfail = 0
     /\ subs = {}
     /\ hst = [c \in Comps |-> "none"]
     /\ epoch = [c \in Comps |-> 0]
@@ -98,12 +111,14 @@ ApiMsg(c) ==
     /\ nmsg' = [nmsg EXCEPT ![c] = @ + 1]
     /\ apiq' = IF hasrecv[c] THEN [apiq EXCEPT ![c] = Append(@, nmsg[c] + 1)] ELSE apiq
     /\ UNCHANGED <<hasrecv, recvFrom, reqq, cur, cached, subs, hst, epoch, snap, fan, consumed, delivered, inst, nreq>>
+    /\ UNCHANGED <<fail, astate, nfail>>
 
 Request(r) ==
     /\ nreq < MaxReq
     /\ nreq' = nreq + 1
     /\ reqq' = Append(reqq, r)
     /\ UNCHANGED <<nmsg, hasrecv, recvFrom, apiq, cur, cached, subs, hst, epoch, snap, fan, consumed, delivered, inst>>
+    /\ UNCHANGED <<fail, astate, nfail>>
 
 \* add_metric after the category is known
 Install(r) ==
@@ -119,22 +134,43 @@ Owed(r) ==
 NeedsLookup(r) == ~cached \/ r.c \notin Comps
 
 ActorRecv ==
-    /\ reqq # <<>> /\ cur = NoReq /\ ~NeedsLookup(Head(reqq))
+    /\ astate = "run" /\ reqq # <<>> /\ cur = NoReq /\ ~NeedsLookup(Head(reqq))
     /\ reqq' = Tail(reqq)
     /\ Install(Head(reqq)) /\ Owed(Head(reqq))
     /\ UNCHANGED <<nmsg, hasrecv, recvFrom, apiq, cur, cached, fan, consumed, delivered, nreq>>
+    /\ UNCHANGED <<fail, astate, nfail>>
 
 ActorTake ==
-    /\ reqq # <<>> /\ cur = NoReq /\ NeedsLookup(Head(reqq))
+    /\ astate = "run" /\ reqq # <<>> /\ cur = NoReq /\ NeedsLookup(Head(reqq))
     /\ reqq' = Tail(reqq)
     /\ cur' = Head(reqq) /\ Owed(Head(reqq))
     /\ UNCHANGED <<nmsg, hasrecv, recvFrom, apiq, cached, subs, hst, epoch, snap, fan, consumed, delivered, nreq>>
+    /\ UNCHANGED <<fail, astate, nfail>>
 
 ActorAdd ==
-    /\ cur # NoReq
+    /\ cur # NoReq /\ ~fail                       \* components() returns
     /\ cur' = NoReq /\ cached' = TRUE
     /\ Install(cur)
     /\ UNCHANGED <<nmsg, hasrecv, recvFrom, apiq, reqq, fan, consumed, delivered, inst, nreq>>
+    /\ UNCHANGED <<fail, astate, nfail>>
+
+ApiListFails ==
+    /\ nfail < MaxFail                          \* (arming an armed failure changes nothing)
+    /\ fail' = TRUE /\ nfail' = nfail + 1
+    /\ UNCHANGED <<nmsg, hasrecv, recvFrom, apiq, reqq, cur, cached, astate, subs, hst, epoch, snap, fan, consumed, delivered, inst, nreq>>
+
+\* components() raises inside _get_component_category: the request in hand is dropped, the cache stays
+\* as it was, nothing of the source object changes
+ActorCrash ==
+    /\ cur # NoReq /\ fail
+    /\ fail' = FALSE /\ astate' = "crashed" /\ cur' = NoReq
+    /\ inst' = IF cur.c \in Comps /\ KeyOf(cur) \notin subs THEN [inst EXCEPT ![KeyOf(cur)] = 0] ELSE inst
+    /\ UNCHANGED <<nmsg, hasrecv, recvFrom, apiq, reqq, cached, nfail, subs, hst, epoch, snap, fan, consumed, delivered, nreq>>
+
+ActorRestart ==
+    /\ astate = "crashed"
+    /\ astate' = "run"
+    /\ UNCHANGED <<nmsg, hasrecv, recvFrom, apiq, reqq, cur, cached, fail, nfail, subs, hst, epoch, snap, fan, consumed, delivered, inst, nreq>>
 
 HandlerStart(c) ==
     /\ hst[c] = "created"
@@ -143,6 +179,7 @@ HandlerStart(c) ==
     /\ hasrecv' = [hasrecv EXCEPT ![c] = TRUE]
     /\ recvFrom' = IF hasrecv[c] THEN recvFrom ELSE [recvFrom EXCEPT ![c] = nmsg[c] + 1]
     /\ UNCHANGED <<nmsg, apiq, reqq, cur, cached, subs, epoch, fan, consumed, delivered, inst, nreq>>
+    /\ UNCHANGED <<fail, astate, nfail>>
 
 Prune(f) == SelectSeq(f, LAMBDA j : j.todo # {})
 
@@ -153,6 +190,7 @@ HandlerRecv(c) ==
     /\ consumed' = [consumed EXCEPT ![c] = Append(@, Head(apiq[c]))]
     /\ fan' = [fan EXCEPT ![c] = Prune(Append(@, [id |-> Head(apiq[c]), todo |-> snap[c]]))]
     /\ UNCHANGED <<nmsg, hasrecv, recvFrom, reqq, cur, cached, subs, hst, epoch, snap, delivered, inst, nreq>>
+    /\ UNCHANGED <<fail, astate, nfail>>
 
 \* the oldest process_msg task that still has to send on k
 FirstFor(c, k) == LET S == {i \in 1..Len(fan[c]) : k \in fan[c][i].todo}
@@ -165,6 +203,7 @@ Send(c, k) ==
          /\ delivered' = [delivered EXCEPT ![k] = Append(@, fan[c][i].id)]
          /\ fan' = [fan EXCEPT ![c] = Prune([@ EXCEPT ![i].todo = @ \ {k}])]
     /\ UNCHANGED <<nmsg, hasrecv, recvFrom, apiq, reqq, cur, cached, subs, hst, epoch, snap, consumed, inst, nreq>>
+    /\ UNCHANGED <<fail, astate, nfail>>
 
 ----------------------------------------------------------------------------
 Rec(a, c, ns, m, st) == [a |-> a, c |-> c, ns |-> ns, m |-> m, st |-> st]
@@ -175,18 +214,21 @@ EmitRule == Mode \in {"gen", "env"} => Emit(h')
 IntOn == Mode # "env"          \* "env": only the environment's event orders are enumerated
 
 MsgStep == Gen /\ (\E c \in Comps : ApiMsg(c) /\ Log(Rec("msg", c, 0, 0, 0))) /\ EmitRule
+FailStep == Gen /\ ApiListFails /\ Log(Rec("fail", 0, 0, 0, 0)) /\ EmitRule
 ReqStep == Gen /\ (\E r \in ReqSet : Request(r) /\ Log(Rec("req", r.c, r.ns, r.m, r.st))) /\ EmitRule
 RecvStep == IntOn /\ Gen /\ (ActorRecv \/ ActorTake) /\ Log(Rec("int", 0, 0, 0, 0)) /\ EmitRule
 AddStep == IntOn /\ Gen /\ ActorAdd /\ Log(Rec("int", 0, 0, 0, 0)) /\ EmitRule
+CrashStep == IntOn /\ Gen /\ ActorCrash /\ Log(Rec("int", 0, 0, 0, 0)) /\ EmitRule
+RestartStep == IntOn /\ Gen /\ ActorRestart /\ Log(Rec("int", 0, 0, 0, 0)) /\ EmitRule
 StartStep == IntOn /\ Gen /\ (\E c \in Comps : HandlerStart(c) /\ Log(Rec("int", 0, 0, 0, 0))) /\ EmitRule
 ConsStep == IntOn /\ Gen /\ (\E c \in Comps : HandlerRecv(c) /\ Log(Rec("int", 0, 0, 0, 0))) /\ EmitRule
 SendStep == IntOn /\ Gen /\ (\E k \in Keys : Send(k.c, k) /\ Log(Rec("int", 0, 0, 0, 0))) /\ EmitRule
 
-Next == MsgStep \/ ReqStep \/ RecvStep \/ AddStep \/ StartStep \/ ConsStep \/ SendStep
+Next == MsgStep \/ ReqStep \/ FailStep \/ RecvStep \/ AddStep \/ CrashStep \/ RestartStep \/ StartStep \/ ConsStep \/ SendStep
 
 Spec == Init /\ [][Next]_vars
 FairSpec == /\ Spec
-            /\ WF_vars(RecvStep) /\ WF_vars(AddStep)
+            /\ WF_vars(RecvStep) /\ WF_vars(AddStep) /\ WF_vars(CrashStep) /\ WF_vars(RestartStep)
             /\ \A c \in Comps : WF_vars(HandlerStart(c) /\ Log(Rec("int", 0, 0, 0, 0)))
             /\ \A c \in Comps : WF_vars(HandlerRecv(c) /\ Log(Rec("int", 0, 0, 0, 0)))
             /\ \A k \in Keys : WF_vars(Send(k.c, k) /\ Log(Rec("int", 0, 0, 0, 0)))
@@ -225,7 +267,7 @@ ActorStep == cur' # cur \/ (reqq # <<>> /\ reqq' = Tail(reqq) /\ nreq' = nreq)
 \* a step never removes, reorders or repeats what an installed stream has or is due to get, and the
 \* step that installs a subscription (cancel + recreate) leaves deliveries and pending work untouched
 ExistingSubsUndisturbed ==
-    [][/\ \A k \in Keys : inst[k] # 0 => (inst'[k] = inst[k] /\ IsPrefix(Stream(k), Stream(k)'))
+    [][/\ \A k \in Keys : k \in subs => (inst'[k] = inst[k] /\ IsPrefix(Stream(k), Stream(k)'))
        /\ ActorStep => UNCHANGED <<delivered, fan, apiq, consumed, nmsg, hasrecv>>]_vars
 
 NoEffect == UNCHANGED <<nmsg, hasrecv, recvFrom, apiq, subs, hst, epoch, snap, fan, consumed, delivered, inst>>
@@ -236,10 +278,10 @@ UnknownComponentHarmless ==
        /\ (cur = NoReq /\ cur' # NoReq /\ cur'.c \notin Comps) => NoEffect]_vars
 
 \* nothing internal is enabled
-Quiescent == /\ reqq = <<>> /\ cur = NoReq
+Quiescent == /\ reqq = <<>> /\ cur = NoReq /\ astate = "run"
              /\ \A c \in Comps : hst[c] # "created" /\ fan[c] = <<>> /\ (hst[c] = "running" => apiq[c] = <<>>)
 \* simulation: one emitted behaviour per run (at the depth bound, or when nothing is left to do)
-SimEmit == (Mode = "sim" /\ (Len(h) = MaxDepth \/ (Quiescent /\ nreq = MaxReq /\ SumOver(nmsg, Comps) = MaxMsg))) => Emit(h)
+SimEmit == (Mode = "sim" /\ (Len(h) = MaxDepth \/ (Quiescent /\ nreq = MaxReq /\ SumOver(nmsg, Comps) = MaxMsg /\ nfail = MaxFail))) => Emit(h)
 
 QuiescentAllDelivered ==
     Quiescent => \A k \in Keys : inst[k] # 0 =>
@@ -255,4 +297,5 @@ TypeOK == /\ \A c \in Comps : hst[c] \in {"none", "created", "running"} /\ snap[
           /\ \A c \in Comps : (hst[c] = "running") => (snap[c] = SubsOf(c) /\ hasrecv[c])
           /\ \A k \in Keys : (inst[k] # 0) <=> (k \in subs \/ (cur # NoReq /\ KeyOf(cur) = k))
           /\ (cur # NoReq /\ cur.c \in Comps) => (~cached /\ subs = {})
+          /\ astate \in {"run", "crashed"} /\ (astate = "crashed" => cur = NoReq)
 =============================================================================
